@@ -134,6 +134,8 @@ def analyse(R, runner, trace, tag):
                     "refresh_unstable": "re-delivering an UNCHANGED advertisement to the real router reported a change / flipped a next hop among tied costs: the result of refresh depends on the Go map iteration order (ties are not broken the same way every time; the exchange cannot come to rest)",
                     "no_quiescence_proto": "the real routers running their own Start() loops kept exchanging advertisements without end on a stable topology (event budget of the simulated network exhausted): no fixed point within a bounded number of exchanges",
                     "fetch_not_retried": "an advertisement fetch of the real router failed (NACK / timeout) and was not re-issued although the neighbour's sequence number is still the latest known: that advertisement is never fetched (later Sync Interests with the same number are 'nothing changed')",
+                    "route_via_non_neighbour": "the real router holds a usable cost through somebody who is not in its neighbour table (e.g. an update that started before the dead sweep and finished after it re-installed the removed neighbour's destinations from what it had read before taking the lock); nothing will ever withdraw it",
+                    "stale_snapshot_applied": "an update of the real router applied an older advertisement than the one current when it held the router lock (a newer advertisement was overtaken)",
                     "no_quiescence": "the notification-driven schedule of the real routers did not come to rest",
                     "harness": "the harness saw an ill-formed table/advertisement"}.get(which, which)
             rep = dict(case=p[2], detail=detail[:3000], ops=ops[-6000:], trace_line=ln)
